@@ -110,7 +110,7 @@ def case_runs(quick):
         ("eq1", dict(n=3, eq=("e1",))),
         ("lock", dict(n=3, opt=("o1",), lock=(0, 1, 2))),
         ("flags2", dict(n=2, flags=range(256))),
-        ("flags3", dict(n=3, flags=FLAGS_SMALL if quick else FLAGS_64[::2] + [8, 255])),
+        ("flags3", dict(n=3, flags=FLAGS_SMALL if quick else FLAGS_64)),
         ("listsT", dict(n=3, flags=(0, 1, 2, 3), tin=(1, 2), tout=(1, 2))),
         ("listsO", dict(n=3, flags=(0, 128), act=(1, 2), bsk=(0, 1, 2))),
         ("four", dict(n=4, opt=("o1",), flags=(131,) if quick else (3, 131))),
